@@ -145,18 +145,18 @@ func c04PartialUpdate(r *core.Run) {
 	}
 	f := fn.SSA
 	isOUT := core.IsFieldLoad("PutConfig", "OnlyUpdateTTL")
-	var gate *ssa.If
+	var gates []*ssa.If
 	for _, b := range f.Blocks {
 		if len(b.Instrs) == 0 {
 			continue
 		}
 		if ifi, ok := b.Instrs[len(b.Instrs)-1].(*ssa.If); ok {
 			if v, neg := core.StripNot(ifi.Cond); isOUT(v) && !neg {
-				gate = ifi
+				gates = append(gates, ifi)
 			}
 		}
 	}
-	if gate == nil {
+	if len(gates) == 0 {
 		r.Bad("partial-update-shipping", fnPutOnCluster+" OnlyUpdateTTL edge", site(r, f.Pos()),
 			"putOnCluster does not distinguish the ttl-only update: the entry shipped to the backups carries the request's (empty) value, so every backup copy loses its value on Expire")
 		return
@@ -179,12 +179,25 @@ func c04PartialUpdate(r *core.Run) {
 		return ok && engineCall("Get")(g)
 	}
 	prep := callTo(fnPrepareEntry)
-	start := gate.Block().Succs[0]
-	bad := reachesInstrAvoidingInstr(start, prep, isLoadStore)
+	// the test may occur more than once (it also keeps Expire away from the LRU eviction);
+	// one of the tests must be the decision that loads the stored value
+	gate := gates[len(gates)-1]
+	bad, dom := true, false
+	for _, g := range gates {
+		b := reachesInstrAvoidingInstr(g.Block().Succs[0], prep, isLoadStore)
+		d := g.Block().Dominates(findFirst(f, prep))
+		if !b && d {
+			gate, bad, dom = g, false, true
+			break
+		}
+		if !b || d {
+			gate, bad, dom = g, b, d
+		}
+	}
 	r.Check(!bad, "partial-update-shipping", fnPutOnCluster+" OnlyUpdateTTL edge", site(r, instrPos(gate)),
 		"on the ttl-only edge every path to prepareEntry first loads the stored value into the request",
 		"on the ttl-only (Expire) edge prepareEntry is reachable without loading the stored value: the entry shipped to the backups has an empty value, so every backup copy loses its value while the primary keeps it")
-	r.Check(gate.Block().Dominates(findFirst(f, prep)), "partial-update-shipping", fnPutOnCluster+" decision precedes prepareEntry", site(r, instrPos(gate)),
+	r.Check(dom, "partial-update-shipping", fnPutOnCluster+" decision precedes prepareEntry", site(r, instrPos(gate)),
 		"the ttl-only decision dominates prepareEntry", "prepareEntry can run before the ttl-only decision")
 }
 
